@@ -301,8 +301,8 @@ def search(ctx, deep):
             with np.errstate(all='ignore'):
                 whole = np.asarray(c.cumulative_distribution(X.copy()), dtype=float)
                 pieces = np.concatenate([np.asarray(c.cumulative_distribution(X[i:i + 61].copy()), dtype=float) for i in range(0, n, 61)])
-            if whole.shape != (n,) or not np.array_equal(whole, pieces, equal_nan=True):
-                i = int(np.argmax(~np.isclose(whole, pieces, rtol=0, atol=0, equal_nan=True))) if whole.shape == pieces.shape else -1
+            if whole.shape != (n,) or not (whole.shape == pieces.shape and np.allclose(whole, pieces, rtol=1e-12, atol=1e-300, equal_nan=True)):
+                i = int(np.argmax(~np.isclose(whole, pieces, rtol=1e-12, atol=1e-300, equal_nan=True))) if whole.shape == pieces.shape else -1
                 found += 1
                 ctx.fail_input(f'{fam}.cumulative_distribution', {'theta': th, 'n': n, 'generator': 'RandomState(n).uniform + 256 rows (u,0) + rows (u,1)',
                                                                  'row': i, 'row_values': X[i].tolist() if i >= 0 else None},
